@@ -537,3 +537,6 @@ def reads(chk, repo, d):
     chk.ob("R02.3", sym, "x is written as an 8-byte q", ok, f,
            "struct reads 'x' as a pad byte; the raw value is a q")
     hash_reads(chk, repo, "R02.3")
+
+# added rules (appended to the explanation the evidence file carries)
+EXPLANATION += (" " + "Added during the build (DESIGN.md 4.31, second table): unary minus / abs keep the operand's scale (every operand kind, constants included); who-may-decode rule for map bytes (R02.3); HashGlobalVarDesc.__get__ by abstract execution on 11 cells; conversion sites are looked for in every function of the package.")
